@@ -5,21 +5,26 @@ reg("C06", "moving-neighbourhood search = its definition; ball-tree k-NN exact",
          "nmini/nmaxi/nsect/nsmax, pair checker none/bench/code/date/faults(2-D), xvalid none/leave-one-out/k-fold) x 4-8 targets "
          "(inside, on a sample, on the hull, outside, or the nodes of a small rotated DbGrid); the set returned by NeighMoving::select (plain and ball search), "
          "KrigingSystem::getSampleIndices, krigtest().nbgh and the test_neigh()/summary() statistics are compared with the "
-         "definition in harness/common/ref_neigh.hpp; targets with a distance tie, a sample within 2e-6*radius of the radius "
+         "definition in harness/common/ref_neigh.hpp. Ball search is modelled as property C04 of this task states the library's "
+         "contract ('ball-tree neighbourhood search equals exhaustive search whenever the nmaxi Euclidean-nearest samples are all "
+         "admissible'): with K = the min(nmaxi,n) samples closest to the target in the plain L2 metric among all ranks of dbin, "
+         "(a) if every member of K is admissible the ball result must equal the definition (oracle set-ball), (b) otherwise it "
+         "must equal the definition applied to the candidate set K (oracle set-ball-candidates); targets where the k-th and "
+         "(k+1)-th Euclidean distances tie are skipped. Targets with a distance tie, a sample within 2e-6*radius of the radius "
          "or within 1e-7 rad of a sector boundary are skipped; the sector partition is asserted only for isotropic unrotated "
          "searches (increment target-sample, sector=floor(nsect*angle/2pi)), anisotropic/rotated searches with sectors must "
          "match the definition in one of the admissible frames. Otherwise KNN case = (points 1-6D, n 1..70 (thorough 300), leaf "
          "1..50, metric L2/L1, constructor VVD/Db/rows) x 4-8 queries (random, equal to a data point, far) x k in 1..n against "
          "brute force. distinct = distinct discrete signatures with at least one non-skipped oracle evaluation",
     require=dict(distinct=200,
-                 oracles=dict(quick={"set-plain": 5000, "set-ball": 5000, "ksys-indices": 4000, "krigtest-nbgh": 300,
-                                     "summary-plain-number": 5000, "test_neigh-number": 1000, "select-repeat": 2000,
-                                     "knn-queryOneAsVD-dist": 4000, "knn-queryOneInPlace-dist": 4000,
-                                     "knn-getIndices-set": 4000},
-                              thorough={"set-plain": 100000, "set-ball": 100000, "ksys-indices": 80000,
-                                        "krigtest-nbgh": 6000, "summary-plain-number": 100000, "test_neigh-number": 20000,
-                                        "knn-queryOneAsVD-dist": 80000, "knn-queryOneInPlace-dist": 80000,
-                                        "knn-getIndices-set": 80000})),
+                 oracles=dict(quick={"set-plain": 5000, "set-ball": 500, "set-ball-candidates": 4000, "ksys-indices": 4000,
+                                     "krigtest-nbgh": 300, "summary-plain-number": 5000, "test_neigh-number": 1000,
+                                     "select-repeat": 2000, "knn-queryOneAsVD-dist": 4000,
+                                     "knn-queryOneInPlace-dist": 4000, "knn-getIndices-set": 4000},
+                              thorough={"set-plain": 100000, "set-ball": 10000, "set-ball-candidates": 80000,
+                                        "ksys-indices": 80000, "krigtest-nbgh": 6000, "summary-plain-number": 100000,
+                                        "test_neigh-number": 20000, "knn-queryOneAsVD-dist": 80000,
+                                        "knn-queryOneInPlace-dist": 80000, "knn-getIndices-set": 80000})),
     assumptions=["'defined sample' = at least one Z variable defined (ANeigh::_discardUndefined: 'Discard samples where all "
                  "variables are undefined')",
                  "anisotropic distance from the user-facing parameters: ellipsoid semi-axes radius*coeff_k, axes turned by "
